@@ -32,9 +32,9 @@ def gen_ua(rng, dist):
     elif cls == 'shortcut_edge':     # distinct(cur) around distinct(prev)/2
         n = rng.randint(2, 12); p = ms(rng.sample(range(60), n)); c = ms(rng.sample(range(60), max(0, n // 2 + rng.randint(-1, 1))))
     elif cls == 'large':    # many distinct items; c items change count, c appear, c disappear for c around powers of two (thresholds on counts of entries)
-        n = rng.choice([20, 33, 40, 70, 130, 300]); ks = rng.sample(range(1000), n)
+        n = rng.choice([20, 33, 40, 70, 130, 300, 300, 700, 1500]); ks = rng.sample(range(4000), n)
         p = ms(ks)
-        cnt = Counter(p); c_n = max(1, min(rng.choice([1, 8, 9, 16, 17, 32, 33, 64, 100]), n // 2))
+        cnt = Counter(p); c_n = max(1, min(rng.choice([1, 8, 9, 16, 17, 32, 33, 64, 100, 128, 129, 256, 257, 512, 513, 700]), n // 2))
         kinds = rng.choice([('chg',), ('chg', 'ins'), ('chg', 'ins', 'rem'), ('ins', 'rem'), ('rem',), ('ins',), ('chg', 'rem')])
         rng.shuffle(ks)
         if 'rem' in kinds:
@@ -42,7 +42,7 @@ def gen_ua(rng, dist):
         if 'chg' in kinds:
             for k in ks[c_n:2 * c_n]: cnt[k] = max(1, cnt[k] + rng.choice([-1, 1, 2]))  if cnt[k] > 1 else cnt[k] + 1
         if 'ins' in kinds:
-            for k in rng.sample(range(1000, 2000), c_n): cnt[k] = rng.choice([1, 1, 2])
+            for k in rng.sample(range(4000, 6000), c_n): cnt[k] = rng.choice([1, 1, 2])
         c = [k for k, m in cnt.items() for _ in range(m)]; rng.shuffle(c)
     elif cls == 'empty_p':
         p = []; c = ms(keys)
@@ -79,8 +79,8 @@ def gen_mf(rng, dist):
     elif cls == 'shortcut_edge':
         n = rng.randint(2, 12); p = mp(rng.sample(range(60), n)); c = mp(rng.sample(range(60), max(0, n // 2 + rng.randint(-1, 1))))
     elif cls == 'large':    # many keys; c values change, c keys appear, c disappear (thresholds on counts of entries)
-        n = rng.choice([20, 33, 40, 70, 130, 300]); ks = rng.sample(range(1000), n)
-        p = mp(ks); m = dict(p); c_n = max(1, min(rng.choice([1, 8, 9, 16, 17, 32, 33, 64, 100]), n // 2))
+        n = rng.choice([20, 33, 40, 70, 130, 300, 300, 700, 1500]); ks = rng.sample(range(4000), n)
+        p = mp(ks); m = dict(p); c_n = max(1, min(rng.choice([1, 8, 9, 16, 17, 32, 33, 64, 100, 128, 129, 256, 257, 512, 513, 700]), n // 2))
         kinds = rng.choice([('chg',), ('chg', 'ins'), ('chg', 'ins', 'rem'), ('ins', 'rem'), ('rem',), ('ins',), ('chg', 'rem'), ('swapvals',)])
         rng.shuffle(ks)
         if 'rem' in kinds:
@@ -88,7 +88,7 @@ def gen_mf(rng, dist):
         if 'chg' in kinds:
             for k in ks[c_n:2 * c_n]: m[k] = m[k] + 100
         if 'ins' in kinds:
-            for k in rng.sample(range(1000, 2000), c_n): m[k] = rng.randrange(5)
+            for k in rng.sample(range(4000, 6000), c_n): m[k] = rng.randrange(5)
         if 'swapvals' in kinds and n >= 2:        # two keys exchange their values; a value another key had comes back
             a_, b_ = ks[0], ks[1]; m[a_], m[b_] = m[b_] + 7, m[a_] + 7; m[a_], m[b_] = m[b_], m[a_]
         c = list(m.items()); rng.shuffle(c)
